@@ -19,7 +19,7 @@ func init() {
 		NeedsInstr: true,
 		Rule: "one run = one CONCURRENT block on an instrumented scratch copy of go-cose (a yield point before every statement of package cose): 2..6 caller tasks share, by reference, messages of every kind (Sign1 tagged/untagged, Sign, " +
 			"constructed in memory or decoded, with full/abbreviated countersignatures), a COSE_Key, a hash envelope, one Verifier per key and one Signer per key; each task performs 1..4 operations from Verify, MarshalCBOR, Countersignature.Verify, " +
-			"VerifyCountersign0, VerifyHashEnvelope, Key.Verifier/PublicKey/MarshalCBOR, and Sign on a task-private message with the shared Signer. Which task runs after every yield point is decided by a schedule drawn from the tape before the tasks start " +
+			"VerifyCountersign0, VerifyHashEnvelope, Key.Verifier/PublicKey/MarshalCBOR, Sign on a task-private message with the shared Signer, and Sign with a signer object of the task's own (RSASSA-PSS under different hashes, ECDSA, EdDSA; nothing shared but the library's package-level state). Which task runs after every yield point is decided by a schedule drawn from the tape before the tasks start " +
 			"(explicit preemption points, or seeded random with stickiness 0/.5/.9/.99), so a run is one exactly repeatable interleaving. Oracles: (i) read-only - the deep snapshot of every shared value, verifier and signer equals its initial snapshot at scheduler steps (every k-th yield, every switch, every task end) and after the block; " +
 			"(ii) sequential equivalence - every operation's result (error class, bytes) equals the result of the same operation run alone after the block (so that first-use effects happen inside the block), signatures made concurrently verify; (iii) race oracle - a race-detector build of the same runs reports no data race " +
 			"(the hand-off between tasks is invisible to the detector, so a conflicting write is reported whatever interleaving ran); (iv) no panic. Non-trivial = a block with >= 2 tasks ran and was compared; distinct = distinct schedule hashes ((task, site) sequences).",
@@ -370,6 +370,39 @@ func scenarioC18(r *Run) {
 			}}
 		}
 	}
+	// signing with signer objects that are NOT shared: several issuers in one
+	// process, each with its own key and algorithm (RSASSA-PSS under
+	// different hashes, ECDSA, EdDSA, native or behind a crypto.Signer).
+	// Nothing is shared between them except what the library keeps at
+	// package level.
+	addOwnSign := func() func() c18Op {
+		var k *KeyPair
+		if t.Bool(1, 2, "c18.own.rsa") {
+			k = poolRSA[t.Choose(len(poolRSA), "c18.own.rsa.k")].withAlg([]int64{-37, -38, -39}[t.Choose(3, "c18.own.rsa.alg")])
+		} else {
+			k = pickKey(t)
+		}
+		signer, verifier := r.signerFor(k, false), r.verifierFor(k, false)
+		a := k.Alg
+		layer := genLayer(t, LayerOpts{MaxExtra: 2, Alg: &a})
+		payload := genPayload(t, false)
+		seed := uint64(t.U32("c18.sign.entropy"))
+		name := fmt.Sprintf("Sign(private message, signer of its own: alg %d)", k.Alg)
+		return func() c18Op {
+			return c18Op{name, func() c18Result {
+				return guard(func() ([]byte, error) {
+					m := &cose.Sign1Message{Headers: libHeaders(layer, Spelling{}, true), Payload: append([]byte{}, payload...)}
+					if err := m.Sign(NewEntropy(seed), nil, signer); err != nil {
+						return nil, err
+					}
+					if err := m.Verify(nil, verifier); err != nil {
+						return []byte("signed-but-does-not-verify"), nil
+					}
+					return m.MarshalCBOR()
+				})
+			}}
+		}
+	}
 	// ---- tasks
 	ntasks := 2 + t.Choose(5, "c18.ntasks")
 	type taskPlan struct {
@@ -386,6 +419,8 @@ func scenarioC18(r *Run) {
 			var mk func() c18Op
 			if t.Bool(1, 4, "c18.op.sign") {
 				mk = addSign()
+			} else if t.Bool(1, 6, "c18.op.ownsign") {
+				mk = addOwnSign()
 			} else {
 				mk = menu[t.Choose(len(menu), "c18.op")]
 			}
